@@ -13,7 +13,10 @@ ENDINGS = ["su", "se", "sx", "iu", "ie", "ix", "ic", "P"]
 def gen(rng, n):
     hs = []
     # every ending kind at every position of a short bidirectional sequence, both modes, peer answering / ignoring CloseSend
+    # (a receiver repeats its sync state when nothing changed, a source repeats its watermark: identical consecutive messages)
     base = ["s 1", "i 1", "s 2", "s 3", "i 2"]
+    for mode in ("default", "lcm"):
+        hs.append(["N %s ignoreclose=0" % mode, "i 4", "i 4", "i 4", "s 7", "s 7", "i 4", "s 7", "E"])
     for mode in ("default", "lcm"):
         for ign in (0, 1):
             for end in ENDINGS:
@@ -33,9 +36,9 @@ def gen(rng, n):
             r = rng.below(100)
             k += 1
             if r < 40:
-                h.append("s %d" % k)
+                h.append("s %d" % (k if rng.chance(2, 3) else max(1, k - 1)))
             elif r < 75:
-                h.append("i %d" % k)
+                h.append("i %d" % (k if rng.chance(2, 3) else max(1, k - 1)))
             elif r < 85:
                 h.append(rng.choice(["fi", "fs"]))
             else:
